@@ -144,8 +144,216 @@ def _pipeline_routes(case):
     return None
 
 
+
+# ----------------------------------------------------------------------------- the caller's array re-used as a buffer
+
+BUF_ROUTES = ['split', 'shift', 'rec_new', 'rec_same', 'reg_new', 'reg_same', 'pipe_new', 'pipe_same', 'pipe_reg', 'pipe_poly']
+
+
+def _partition(labels):
+    d = {}
+    for i, l in enumerate(labels):
+        d.setdefault(l, []).append(i)
+    return sorted(map(tuple, d.values()))
+
+
+def _buf_labels(rng, n):
+    """an episode column for n rows: 1..5 episodes of any lengths >= 1, contiguous ascending or arbitrary labels,
+    blocks in any label order or interleaved rows"""
+    k = rng.randint(1, min(5, n // 2))
+    cuts = sorted(rng.sample(range(1, n), k - 1))
+    lens = [b - a for a, b in zip([0] + cuts, cuts + [n])]
+    labels = list(range(k)) if rng.random() < 0.5 else rng.sample(range(0, 20), k)
+    if rng.random() < 0.75:
+        return [l for l, m in zip(labels, lens) for _ in range(m)]
+    left = dict(zip(labels, lens))
+    col = []
+    while len(col) < n:
+        l = rng.choice([l for l in labels if left[l] > 0])
+        col.append(l)
+        left[l] -= 1
+    return col
+
+
+def gen_buffer(rng):
+    """a HISTORY on one array object: contents of the same shape written into it in place, one after the other (only the
+    episode column, only the data, or everything), and after each rewrite the array is handed to pykoop again"""
+    nx, nu = rng.randint(1, 3), rng.choice([0, 1, 2])
+    ep = rng.random() < 0.85
+    w = nx + nu
+    n = rng.randint(max(3 * w + 4, w + 8), 30)
+    data = lambda: [[rng.uniform(-1, 1) for _ in range(w)] for _ in range(n)]
+    cur_l, cur_d = (_buf_labels(rng, n) if ep else None), data()
+    stages = []
+    for s in range(rng.randint(2, 4)):
+        kind = 'all' if s == 0 else rng.choice(['labels', 'labels', 'all', 'data'] if ep else ['data'])
+        if s > 0 and kind in ('labels', 'all'):
+            force = rng.random() < 0.85      # the partition into episodes changes (else possibly a pure relabelling)
+            for _ in range(20):
+                new_l = _buf_labels(rng, n)
+                if not force or _partition(new_l) != _partition(cur_l):
+                    break
+            cur_l = new_l
+        if s > 0 and kind in ('data', 'all'):
+            cur_d = data()
+        rows = [([float(l)] if ep else []) + list(d) for l, d in zip(cur_l or [0] * n, cur_d)]
+        routes = rng.sample(BUF_ROUTES, rng.randint(1, 4))
+        stages.append({'kind': kind, 'rows': rows, 'routes': routes})
+    names = ['Edmd', 'EdmdMeta', 'Dmdc', 'DataRegressor'] + (['Dmd'] if nu == 0 else [])
+    return {'spec': None, 'nx': nx, 'nu': nu, 'ep': ep, 'rows': stages[0]['rows'], 'min_len': 1,
+            'buffer': {'stages': stages, 'mem': rng.choice(['C', 'C', 'F', 'view']), 'reg': rng.choice(names),
+                       'alpha': rng.choice([0, 0.1, 1.0])}}
+
+
+def _ref_pairs(C, nx, ep):
+    """within-episode consecutive pairs of the matrix C, straight from the definition (no pykoop): per label in
+    ascending order, rows of that label in matrix order, (row k, states of row k+1); label column kept iff ep"""
+    e = 1 if ep else 0
+    labs = [C[i, 0] for i in range(C.shape[0])] if ep else [0.0] * C.shape[0]
+    U, S = [], []
+    for l in sorted(set(labs)):
+        idx = [i for i in range(C.shape[0]) if labs[i] == l]
+        for a, b in zip(idx[:-1], idx[1:]):
+            U.append(C[a, :])
+            S.append(C[b, :e + nx])
+    return (np.array(U).reshape(len(U), C.shape[1]), np.array(S).reshape(len(S), e + nx))
+
+
+def _bag(U, S):
+    return sorted(map(tuple, np.hstack((U, S)).tolist())) if U.shape[0] == S.shape[0] else None
+
+
+def _mk_reg(name, alpha, thorough_lmi=False):
+    if name == 'Edmd':
+        return pykoop.Edmd(alpha=alpha)
+    if name == 'EdmdMeta':
+        return pykoop.EdmdMeta()
+    if name == 'Dmdc':
+        return pykoop.Dmdc()
+    if name == 'Dmd':
+        return pykoop.Dmd()
+    if name == 'LmiEdmd':
+        return pykoop.lmi_regressors.LmiEdmd(alpha=0.1, solver_params={'solver': 'cvxopt'})
+    return pykoop.DataRegressor()
+
+
+def _buffer_oracle(case, thorough=False):
+    """the training pairs are those of the CURRENT contents of the matrix passed in: one ndarray object is rewritten in
+    place between calls and handed to split_episodes / shift_episodes / regressors (same or new objects) / pipelines again.
+    During the history only that one array is given to pykoop; expected values are computed afterwards from copies of the
+    contents, without pykoop (explicit-pair fits for coef_ are done on fresh arrays at the very end)."""
+    b = case['buffer']
+    nx, nu, ep = case['nx'], case['nu'], case['ep']
+    e = 1 if ep else 0
+    n, wd = len(case['rows']), len(case['rows'][0])
+    if b['mem'] == 'F':
+        B = np.empty((n, wd), order='F')
+    elif b['mem'] == 'view':
+        B = np.full((n + 4, wd + 1), 3.0)[2:2 + n, :wd]
+    else:
+        B = np.empty((n, wd))
+    reg_name = 'LmiEdmd' if thorough else b['reg']
+    kept = {}
+    obs = []         # (stage index, route, observed value)
+    contents = []
+    for si, stg in enumerate(b['stages']):
+        new = np.array(stg['rows'], dtype=float)
+        if stg['kind'] == 'labels':
+            B[:, 0] = new[:, 0]
+        elif stg['kind'] == 'data':
+            B[:, e:] = new[:, e:]
+        else:
+            B[:] = new
+        contents.append(np.array(B, order='C', copy=True))
+        for route in stg['routes']:
+            if route == 'split':
+                val = [(l, np.array(Xe)) for l, Xe in pykoop.split_episodes(B, episode_feature=ep)]
+            elif route == 'shift':
+                Xu, Xs = pykoop.shift_episodes(B, n_inputs=nu, episode_feature=ep)
+                val = (np.array(Xu), np.array(Xs))
+            elif route in ('rec_new', 'rec_same'):
+                r = kept.setdefault('rec', _Rec()) if route == 'rec_same' else _Rec()
+                r.fit(B, n_inputs=nu, episode_feature=ep)
+                val = r.seen_
+            elif route in ('reg_new', 'reg_same'):
+                try:
+                    r = kept.setdefault('reg', _mk_reg(reg_name, b['alpha'])) if route == 'reg_same' else _mk_reg(reg_name, b['alpha'])
+                    val = np.array(r.fit(B, n_inputs=nu, episode_feature=ep).coef_)
+                except Exception:
+                    continue
+            elif route in ('pipe_new', 'pipe_same'):
+                mk = lambda: pykoop.KoopmanPipeline(lifting_functions=None, regressor=_Rec())
+                kp = kept.setdefault('pipe', mk()) if route == 'pipe_same' else mk()
+                kp.fit(B, n_inputs=nu, episode_feature=ep)
+                val = kp.regressor_.seen_
+            elif route == 'pipe_reg':
+                try:
+                    kp = pykoop.KoopmanPipeline(lifting_functions=None, regressor=_mk_reg(reg_name, b['alpha']))
+                    val = np.array(kp.fit(B, n_inputs=nu, episode_feature=ep).regressor_.coef_)
+                except Exception:
+                    continue
+            else:
+                kp = pykoop.KoopmanPipeline(lifting_functions=[('p', pykoop.PolynomialLiftingFn(order=2))], regressor=_Rec())
+                kp.fit(B, n_inputs=nu, episode_feature=ep)
+                val = (kp, kp.regressor_.seen_)
+            obs.append((si, route, val))
+    # -- the history is over; compare with the definition applied to the contents the array had at each call
+    for si, route, val in obs:
+        C = contents[si]
+        stg = b['stages'][si]
+        tags = {'buffer_reuse': True, 'route': route, 'rewrite': stg['kind'], 'stage': si}
+        hist = (f"call {si + 1} on the same ndarray object" + (f" (after its {'episode column' if stg['kind'] == 'labels' else 'data columns' if stg['kind'] == 'data' else 'whole contents'}"
+                                                                f" had been rewritten in place)" if si else ''))
+        U, S = _ref_pairs(C, nx, ep)
+        if route == 'split':
+            labs = sorted(set(C[:, 0].tolist())) if ep else [0.0]
+            got = {float(l): Xe for l, Xe in val}
+            if len(val) != len(got) or sorted(got) != labs:
+                return (f'{hist}: split_episodes returns episodes {[float(l) for l, _ in val]}, the episode column now holds {labs}'), tags
+            for l in labs:
+                if not np.array_equal(got[l], C[C[:, 0] == l][:, 1:] if ep else C):
+                    return f'{hist}: split_episodes: episode {l:g} is not the rows the array now carries under that label', tags
+        elif route == 'shift':
+            Xu, Xs = val
+            if Xs.shape[1] != e + nx or _bag(Xu, Xs) != _bag(U, S):
+                return (f'{hist}: shift_episodes does not return exactly the within-episode consecutive pairs of the '
+                        f'array\'s CURRENT contents (a pair straddles two current episodes, is dropped or duplicated)'), tags
+        elif route in ('rec_new', 'rec_same', 'pipe_new', 'pipe_same'):
+            who = {'rec_new': 'a new regressor', 'rec_same': 'the same regressor fitted again',
+                   'pipe_new': 'a new KoopmanPipeline without lifting functions',
+                   'pipe_same': 'the same KoopmanPipeline (no lifting functions) fitted again'}[route]
+            su, ss = val
+            if ss.shape[1] != nx or _bag(su, ss) != _bag(U[:, e:], S[:, e:]):
+                return (f'{hist}: {who} hands its solver pairs that are not the within-episode consecutive pairs of the '
+                        f'array\'s CURRENT contents'), tags
+        elif route == 'pipe_poly':
+            kp, (su, ss) = val
+            Xt = np.asarray(kp.transform(C.copy()), dtype=float)
+            Ut, St = _ref_pairs(Xt, kp.n_states_out_, ep)
+            if ss.shape[1] != kp.n_states_out_ or _bag(su, ss) != _bag(Ut[:, e:], St[:, e:]):
+                return (f'{hist}: the regressor at the end of a KoopmanPipeline (polynomial lifting) receives pairs that are '
+                        f'not the within-episode consecutive pairs of the lifted CURRENT contents'), tags
+        else:
+            if np.linalg.cond(U[:, e:]) > 1e3:
+                continue
+            try:
+                ref = _mk_reg(reg_name, b['alpha']).fit(U.copy(), S.copy(), n_inputs=nu, episode_feature=ep).coef_
+            except Exception:
+                continue
+            tags['regressor'] = reg_name
+            tol = (1e-6 if reg_name.startswith('Lmi') else 1e-8) * max(1.0, np.max(np.abs(ref)))
+            if val.shape != ref.shape or not np.max(np.abs(val - ref)) <= tol:
+                who = {'reg_new': 'a new regressor', 'reg_same': 'the same regressor fitted again',
+                       'pipe_reg': 'a new KoopmanPipeline without lifting functions'}[route]
+                return (f'{hist}: {reg_name} ({who}): coef_ of fit(X) differs from the fit on the explicitly supplied '
+                        f'within-episode consecutive pairs of the array\'s CURRENT contents'), tags
+    return None, None
+
+
 def _oracle(case, rng, thorough=False):
     """coef_ of fit(X) == fit(Xu, Xs) == fit(relabelled / reordered X), on well-conditioned float data"""
+    if case.get('buffer'):
+        return _buffer_oracle(case, thorough)
     nx, nu, ep = case['nx'], case['nu'], case['ep']
     e = 1 if ep else 0
     rs = np.random.RandomState(rng.randint(0, 2 ** 31 - 1))
@@ -223,7 +431,7 @@ def population_search(ctx):
     """failing-input search over a fresh population (also used when an exception raised inside the implementation
     ended the correspondence run early)"""
     for i in range(300):
-        c = gen(ctx, True)
+        c = gen(ctx, True) if i % 3 else gen_buffer(ctx.rng)
         w, tags = oracle(c, ctx.rng)
         if w:
             ctx.fail(w, c, tags)
@@ -234,12 +442,19 @@ def run(ctx):
     ctx.rule = ('bare regressors on multi-episode tagged-integer matrices (episode lengths incl. 1 and 2, arbitrary '
                 'labels, interleaved rows, n_inputs 0..2) and regressors at the end of random algebraic pipelines '
                 '(lifted widths n_inputs_out_ matter); a recording KoopmanRegressor captures the exact arguments of '
-                '_fit_regressor; non-trivial = at least two rows')
+                '_fit_regressor; non-trivial = at least two rows; plus buffer histories: ONE ndarray object (C / F order or '
+                'a non-contiguous view) whose episode column, data columns or whole contents are rewritten in place 1-3 '
+                'times (the partition into episodes changes: other lengths, labels, block order, interleaving) and which '
+                'is handed again, after every rewrite, to split_episodes / shift_episodes / the same or a new regressor / '
+                'the same or a new KoopmanPipeline (no lifting, polynomial lifting)')
     ctx.explanation = ('theorems C05_* about shift_episodes in the model (pairs are exactly the within-episode '
                        'consecutive ones; row alignment; no inputs on the shifted side; relabel/reorder invariance as a '
                        'permutation); correspondence: recorded (X_unshifted, X_shifted) compared verbatim with the model; '
                        'oracle: coef_ of fit(X) vs fit(Xu, Xs) vs relabelled X for Edmd, EdmdMeta, Dmd, Dmdc, '
-                       'DataRegressor (+LmiEdmd in thorough)')
+                       'DataRegressor (+LmiEdmd in thorough); buffer histories (oracle only): after each in-place rewrite of '
+                       'the caller\'s array the episodes / pairs returned, the pairs recorded at _fit_regressor and coef_ of '
+                       'real regressors are compared with the within-episode consecutive pairs of the CURRENT contents, '
+                       'computed from a copy by definition (and explicit-pair fits on fresh arrays) after the history ended')
     ctx.proof_obligations('Properties.C05', THEOREMS)
     drv = ctx.get_driver()
     n = ctx.n(160, 2000)
@@ -310,6 +525,18 @@ def run(ctx):
             w, tags = oracle(c, ctx.rng, ctx.tier == 'thorough' and ctx.rng.random() < 0.1)
             if w:
                 ctx.fail(w, c, tags)
+
+    # the caller's array re-used as a buffer between calls: the pairs are those of its CURRENT contents
+    for j in range(ctx.n(60, 600)):
+        c = gen_buffer(ctx.rng)
+        ctx.count('buffer-reuse')
+        for stg in c['buffer']['stages'][1:]:
+            ctx.count('buffer-reuse:rewrite=' + stg['kind'])
+        ctx.record_case({k: c[k] for k in ('nx', 'nu', 'ep', 'buffer')}, True)
+        w, tags = oracle(c, ctx.rng, ctx.tier == 'thorough' and ctx.rng.random() < 0.05)
+        if w:
+            ctx.fail(w, c, tags)
+            break
 
     def search(ctx):
         for c in bad[:60]:
